@@ -9,6 +9,7 @@ import (
 	"os"
 	"path/filepath"
 	"sort"
+	"strconv"
 	"strings"
 	"sync"
 	"sync/atomic"
@@ -39,11 +40,15 @@ type vCtl struct {
 	cur      map[string]*vInst // latest instance per kind (start/computing/gate)
 	posting  map[string]*vInst // instance whose completion closure is being sent
 	free     bool              // no gating at all (C20 free-running mode)
+	slow     time.Duration     // free-running mode: delay before a job posts its completion
 	nStarted map[string]int
 }
 
 func vNewCtl(free bool) *vCtl {
 	c := &vCtl{cur: map[string]*vInst{}, posting: map[string]*vInst{}, free: free, nStarted: map[string]int{}}
+	if ms, err := strconv.Atoi(os.Getenv("VERIF_SLOW_MS")); err == nil && free {
+		c.slow = time.Duration(ms) * time.Millisecond
+	}
 	c.cond = sync.NewCond(&c.mu)
 	return c
 }
@@ -69,7 +74,15 @@ func vInstallCtl(c *vCtl) {
 
 func (c *vCtl) hook(kind string, phase int, args []any) {
 	if c.free {
-		return // free-running mode: no gate and no synchronisation of any kind (see vCurCtl)
+		// free-running mode: no gate and no synchronisation of any kind (see vCurCtl).  A plain sleep before the job posts
+		// its completion keeps the job "in flight" a little longer - after its reads of shared state, before the send that
+		// orders them - so that the closures of other jobs and API calls overlap it (time.Sleep orders nothing).
+		if phase == 0 && c.slow > 0 {
+			// different lengths per kind so that the completion of one job falls into the flight of another
+			mult := map[string]int{"import": 1, "tag": 3, "merge": 2, "conv": 2}[kind]
+			time.Sleep(c.slow * time.Duration(mult+int(time.Now().UnixNano()/1000)%2))
+		}
+		return
 	}
 	switch phase {
 	case -1:
